@@ -87,7 +87,7 @@ def features(g):
 
 
 def random_graph(rng, nmin=5, nmax=11, max_ch=4, p_cycle=0.2, p_shared=0.25, n_inc=(0, 3), two_start=0.15,
-                 max_space=300):
+                 max_space=300, p_keep_single=0.3):
     """Random structured description, grown from the start nodes."""
     while True:
         n = rng.randint(nmin, nmax)
@@ -125,6 +125,14 @@ def random_graph(rng, nmin=5, nmax=11, max_ch=4, p_cycle=0.2, p_shared=0.25, n_i
                 o = rng.randint(nstart+1, n)
                 if o != c['origin'] and o not in c['opts'] and len(c['opts']) < 4 and (c['origin'], o) not in der:
                     c['opts'].append(o)
+        # most single-option choices become plain derivation edges (they are forced anyway); some are kept
+        kept = []
+        for c in ch:
+            if len(c['opts']) == 1 and rng.random() > p_keep_single:
+                der.add((c['origin'], c['opts'][0]))
+            else:
+                kept.append(c)
+        ch = kept
         # never declare a derivation edge from an originating node straight to one of its own options (the
         # instance edge origin->option would be indistinguishable from it)
         for c in ch:
